@@ -22,7 +22,9 @@ PARTIAL = ["the theorems are about where the compiler model lets tail calls thro
            "then runs in constant stack and heap is measured on the implementation, not proved"]
 
 CTX_ANY = ["(. | @X)", "(. as $v | @X)", "(empty, @X)", "(null // @X)", "(false // @X)", "if true then @X else . end", "if false then . else @X end",
-           "if false then . elif true then @X else . end", "foreach 1 as $s (.; .; @X)", "(def aux: .; @X)", "(def aux($q): $q; @X)", "(1 as $one | . | @X)"]
+           "if false then . elif true then @X else . end", "foreach 1 as $s (.; .; @X)", "(def aux: .; @X)", "(def aux($q): $q; @X)", "(1 as $one | . | @X)",
+           # destructuring bindings are bindings: what stands to their right is in tail position as well
+           "([.] as [$v] | $v | @X)", "({a: .} as {a: $v} | $v | @X)", "({a: .} as {$a} | $a | @X)", "([., 1] as [$v, $w] | $v | @X)"]
 
 
 class Def:
